@@ -6,7 +6,10 @@ class WouldBlock(BaseException):
 
 
 class ScriptSocket(object):
-    """`recv(n)` hands out the scripted segments one at a time (cut to n), `sendall` records."""
+    """`recv(n)` hands out the scripted segments one at a time (cut to n), `sendall` records.
+    With `ScriptSocket.YIELD` set every recv / send first yields to the other greenlets (the campaign runner sets it
+    while it runs two cases at the same time: sessions must not influence each other)."""
+    YIELD = False
 
     def __init__(self, segments, eof=False):
         self.segments = [bytes(s) for s in segments]
@@ -21,7 +24,13 @@ class ScriptSocket(object):
     def getpeername(self):
         return ('peer', 0)
 
+    def _yield(self):
+        if ScriptSocket.YIELD:
+            import gevent
+            gevent.sleep(0)
+
     def recv(self, n):
+        self._yield()
         if not self.segments:
             if self.eof:
                 self.recvd.append(b'')
@@ -36,9 +45,11 @@ class ScriptSocket(object):
         return out
 
     def sendall(self, data):
+        self._yield()
         self.sent.append(bytes(data))
 
     def send(self, data):
+        self._yield()
         self.sent.append(bytes(data))
         return len(data)
 
